@@ -564,6 +564,11 @@ class Gen:
                 if ta != "u64" or tc != "u64":
                     raise GenError("saturating_add on %s" % ta)
                 return b1 + b2, "(sat_add %s %s)" % (a, c), "u64"
+            if name == "clone" and not args:
+                b1, a, ta = self.expr(recv, env)
+                if ta not in ("opt_id", "id"):
+                    raise GenError(".clone() of a %s is outside the fragment" % ta)
+                return b1, a, ta
             if name == "into" and not args:
                 b1, a, ta = self.expr(recv, env)
                 if ta == "u8" and (want or "u64") == "u64":
@@ -858,7 +863,7 @@ class Gen:
     def method(self, m):
         env = {x: t for x, t in m["params"]}
         self.cur = m
-        rt = {"u64": "N", "usize": "N", "u32": "N", "bool": "bool", "unit": "unit", "vec": "list N", "result_unit": "bool"}[m["ret"]]
+        rt = {"u64": "N", "usize": "N", "u32": "N", "bool": "bool", "unit": "unit", "vec": "list N", "result_unit": "bool", "opt_id": "option N", "id": "N"}[m["ret"]]
         params = " ".join("(%s : %s)" % (x, {"bool": "bool", "vec": "list N", "opt_u64": "option N", "opt_id": "option N"}.get(t, "N")) for x, t in m["params"])
         res = ("(%s * %s)" % (self.struct, rt) if m["ret"] != "unit" else self.struct) if m["selfmode"] == "mut" else rt
         self.tmp = 0
@@ -867,10 +872,14 @@ class Gen:
         if self.struct is None:
             # a method of a validator: `self` only reaches the policy; its fields and the filter are parameters
             pol = " ".join("(policy_%s : N)" % f for f in self.policy_used)
-            return "Definition gen_%s (prof : profile) (warn : string -> bool) %s %s : trap %s :=\n%s." % (m["name"], pol, params, res, indent(body))
-        return "Definition gen_%s (prof : profile) (self : %s) %s : trap %s :=\n%s." % (m["name"], self.struct, params, res, indent(body))
+            return "Definition gen_%s (prof : profile) (warn : string -> bool) %s %s : trap %s :=\n%s." % (m["name"], pol, params, paren(res), indent(body))
+        return "Definition gen_%s (prof : profile) (self : %s) %s : trap %s :=\n%s." % (m["name"], self.struct, params, paren(res), indent(body))
 
     field_list = []
+
+
+def paren(t):
+    return "(%s)" % t if " " in t and not t.startswith("(") else t
 
 
 def indent(s):
@@ -945,7 +954,8 @@ def generate_payments(repo):
 def generate_enforcement(repo):
     path = os.path.join(repo, "vls-core", "src", "policy", "validator.rs")
     src = open(path).read()
-    names = ["set_next_counterparty_commit_num", "set_next_counterparty_revoke_num"]
+    names = ["set_next_counterparty_commit_num", "set_next_counterparty_revoke_num",
+             "get_previous_counterparty_point", "get_previous_counterparty_commit_info"]
     fields = struct_fields(src, "EnforcementState", skip_unknown=True)
     methods, texts = {}, {}
     for n in names:
@@ -960,7 +970,8 @@ def generate_enforcement(repo):
                                             g.method(methods[n])))
     text = ("(** GENERATED by tools/gen_rustfn.py from vls-core/src/policy/validator.rs (struct EnforcementState: the\n"
             "    fields whose types are inside the fragment; fn set_next_counterparty_commit_num, fn\n"
-            "    set_next_counterparty_revoke_num) - do not edit.  Keys and commitment contents are opaque identities. *)\n"
+            "    set_next_counterparty_revoke_num, fn get_previous_counterparty_point, fn\n"
+            "    get_previous_counterparty_commit_info) - do not edit.  Keys and commitment contents are opaque identities. *)\n"
             "From VLS Require Export Base.Rust.\n\n" + "\n\n".join(out) + "\n")
     outp = os.path.join(ROOT, "coq", "theories", "Gen", "EnforcementGen.v")
     if not os.path.exists(outp) or open(outp).read() != text:
